@@ -40,7 +40,11 @@ struct Model {
     std::map<uint64_t, osmium::Location> m;
 };
 
-static uint64_t dense_limit() { return vp::opts().tier == "thorough" ? (1ULL << 26) : (1ULL << 22); }
+// ids for the dense map types stay below this limit (a dense array costs 8 bytes per id below its largest id, in memory or in a file under
+// $VERIF_TMP): 2^22 in the quick tier; in the thorough tier 2^24 and, for one case in ten, 2^26 (16 shards at 2^26 all the time took
+// ~27 GB together, which is more than a memory-limited run gets)
+static unsigned g_dense_bits = 22;
+static uint64_t dense_limit() { return 1ULL << g_dense_bits; }
 
 // distinct ids: dense part (< limit) and sparse part (anything)
 static void gen_ids(Src& s, size_t n, std::vector<uint64_t>& dense, std::vector<uint64_t>& sparse, std::set<uint64_t>& used, bool allow_sparse) {
@@ -458,11 +462,14 @@ static void flex_switch(Src& s) {
 }
 
 static void prop(Src& s) {
+    tmpdir::FdScope fds;  // (declared first: descriptors are closed after the files have been unlinked and the maps destroyed)
     tmpdir::Scope scope;
     struct Bind {
         explicit Bind(tmpdir::Scope* sc) { g_tmp_scope = sc; }
         ~Bind() { g_tmp_scope = nullptr; }
     } bind{&scope};
+    g_dense_bits = vp::opts().tier != "thorough" ? 22 : vp::extra("only") == "flex" ? 26 : s.chance(1, 10) ? 26 : 24;
+    if (g_dense_bits == 26) vp::count("dense_limit_2^26");
     if (vp::extra("only") == "flex") {
         flex_switch(s);
         return;
@@ -482,7 +489,7 @@ static void prop(Src& s) {
     }
 }
 
-VP_MAIN(prop, "generated insertion histories of distinct ids (0..4095, around k*2^16 and k*2^20 +-2, uniform below the dense limit 2^22 (thorough 2^26), 64-bit edge ids 2^32+-1, 2^63, 2^64-1; "
+VP_MAIN(prop, "generated insertion histories of distinct ids (0..4095, around k*2^16 and k*2^20 +-2, uniform below the dense limit 2^22 (thorough 2^24, one case in ten 2^26), 64-bit edge ids 2^32+-1, 2^63, 2^64-1; "
               "occasionally one block of 2^20+5 consecutive ids), in sorted/reversed/shuffled order, in one or two sort() phases, on every map type of the factory; lookups of all inserted ids, "
               "their neighbours and never-inserted ids against std::map; dump_as_list / dump_as_array decoded by the harness and reloaded as sparse_file_array / dense_file_array; "
               "file-backed indexes reopened; NodeLocationsForWays with five real storage pairs and node streams in interleaved/sorted/reversed/shuffled order over several node-way rounds; "
